@@ -397,6 +397,47 @@ Theorem C15_decode_twice_or_cut_is_a_third_result :
 Proof. exact decode_twice_or_cut_is_a_third_result. Qed.
 Print Assumptions C15_decode_twice_or_cut_is_a_third_result.
 
+(* The response status and a Location header play no part in the decision (the page of a redirect that
+   is not followed - NoRedirectPolicy, Transport.RoundTrip used directly, a 307 to an unreplayable body -
+   is delivered like any other body) *)
+Theorem C15_status_and_location_irrelevant :
+  forall (enc : Type) (parse_ct : bytes -> ct_parse) (lookup_charset : bytes -> option enc)
+         s1 l1 s2 l2 disable sel resp_ce ct,
+    decide_resp parse_ct lookup_charset s1 l1 disable sel resp_ce ct =
+    decide_resp parse_ct lookup_charset s2 l2 disable sel resp_ce ct.
+Proof. exact (@decide_resp_independent). Qed.
+Print Assumptions C15_status_and_location_irrelevant.
+
+(* Protocol x content coding: a body the transport HAS decompressed (transparent gzip or AutoDecompression,
+   h1 / h2 / h3 alike: every site deletes Content-Encoding when it decodes - pinned) is selected exactly
+   like a body that was never compressed; one nobody decompressed is not selected (and so untouched) *)
+Theorem C15_decompressed_is_like_plain :
+  forall p ce disable sel ct,
+    should_decode disable sel (ce_at_charset_stage p true ce) ct = should_decode disable sel [] ct.
+Proof. exact decompressed_is_like_plain. Qed.
+Print Assumptions C15_decompressed_is_like_plain.
+
+Theorem C15_decompression_stack_independent :
+  forall p1 p2 d ce disable sel ct,
+    should_decode disable sel (ce_at_charset_stage p1 d ce) ct =
+    should_decode disable sel (ce_at_charset_stage p2 d ce) ct.
+Proof. exact decompression_stack_independent. Qed.
+Print Assumptions C15_decompression_stack_independent.
+
+Theorem C15_not_decompressed_not_selected :
+  forall p ce disable sel ct,
+    ce <> [] -> should_decode disable sel (ce_at_charset_stage p false ce) ct = false.
+Proof. exact not_decompressed_not_selected. Qed.
+Print Assumptions C15_not_decompressed_not_selected.
+
+Theorem C15_decode_guards_pinned :
+  In (bs "autoDecodeResponseBody:guards",
+      bs "if t.disableAutoDecode || res.Header.Get(""Content-Encoding"") != """" { return }") decode_setters /\
+  exists sites, In (bs "Content-Encoding:deleted-by", sites) decode_setters /\
+    sites = bs "transport.go:readLoop:2; internal/http2/transport.go:handleResponse:2; internal/http3/http_stream.go:ReadResponse:2".
+Proof. exact decode_guards_pinned. Qed.
+Print Assumptions C15_decode_guards_pinned.
+
 (* The pinned (pre-fix) peekRead violates two_results_only in three ways; witnesses kept checked
    (toy two-byte charset so that they are closed and computable). *)
 Theorem C15_two_results_only_pinned_refuted :
